@@ -28,8 +28,11 @@ import (
 	"os"
 	"path/filepath"
 	"regexp/syntax"
+	"runtime/debug"
 	"sort"
+	"strconv"
 	"strings"
+	"sync"
 	"testing"
 	"unicode/utf8"
 
@@ -477,9 +480,31 @@ func c37Convert(conv *tagsToSections, d *c37Doc) (o c37Outcome) {
 	return
 }
 
-// c37Add hands the converted document to a fresh real ShardBuilder.
-func c37NewBuilder() (*ShardBuilder, error) {
-	return NewShardBuilder(&zoekt.Repository{Name: "c37", ID: 37, Branches: []zoekt.RepositoryBranch{{Name: "main", Version: "v"}}})
+// c37Pool hands out ShardBuilders the way index.Builder does in production: the two
+// postingsBuilders are kept, reset() and reused for the next shard (allocating them
+// afresh costs ~20 MB per builder).
+type c37Pool struct{ content, name *postingsBuilder }
+
+func (p *c37Pool) builder() (*ShardBuilder, error) {
+	if p.content == nil {
+		p.content = newPostingsBuilder(defaultShardMax)
+		p.name = newPostingsBuilder(defaultShardMax)
+	} else {
+		p.content.reset()
+		p.name.reset()
+	}
+	b := newShardBuilderWithPostings(p.content, p.name)
+	if err := b.setRepository(&zoekt.Repository{Name: "c37", ID: 37, Branches: []zoekt.RepositoryBranch{{Name: "main", Version: "v"}}}); err != nil {
+		return nil, err
+	}
+	return b, nil
+}
+
+// c37W is one worker: its own builders, converter and scratch directory.
+type c37W struct {
+	shardPool c37Pool
+	dir       string
+	rec       *kit.Rec
 }
 
 func c37AddTo(b *ShardBuilder, name string, d *c37Doc) (sig, what string) {
@@ -499,21 +524,6 @@ func c37AddTo(b *ShardBuilder, name string, d *c37Doc) (sig, what string) {
 		return "add/error/" + kit.MsgClass(err.Error()), "ShardBuilder.Add rejected the converted document: " + err.Error()
 	}
 	return "", ""
-}
-
-// c37Unit = conversion + acceptance for one document (fresh builder).
-func c37Unit(conv *tagsToSections, d *c37Doc) c37Outcome {
-	o := c37Convert(conv, d)
-	if o.sig != "" {
-		return o
-	}
-	b, err := c37NewBuilder()
-	if err != nil {
-		o.sig, o.what = "harness/new-builder", err.Error()
-		return o
-	}
-	o.sig, o.what = c37AddTo(b, "f.go", d)
-	return o
 }
 
 // c37Shrink removes entries (then lines of content is left alone) while the same
@@ -541,8 +551,9 @@ type c37IV struct{ S, E uint32 }
 // c37E2E writes docs (already converted and individually accepted) into one shard,
 // opens it through the production loader and checks the sym: queries. idx is the
 // document the complaint is about (-1: the shard as a whole).
-func c37E2E(dir string, docs []*c37Doc, rec *kit.Rec) (sig, what string, idx int) {
-	b, err := c37NewBuilder()
+func (w *c37W) e2e(docs []*c37Doc) (sig, what string, idx int) {
+	dir, rec := w.dir, w.rec
+	b, err := w.shardPool.builder()
 	if err != nil {
 		return "harness/new-builder", err.Error(), -1
 	}
@@ -550,6 +561,7 @@ func c37E2E(dir string, docs []*c37Doc, rec *kit.Rec) (sig, what string, idx int
 		if s, w := c37AddTo(b, fmt.Sprintf("d%03d.go", i), d); s != "" {
 			return s, w, i
 		}
+		rec.Count("add_accepted", 1)
 	}
 	p := filepath.Join(dir, "c37_v16.00000.zoekt")
 	defer os.Remove(p)
@@ -734,21 +746,39 @@ func c37Bucket(n int) string {
 func TestVerif_C37(t *testing.T) {
 	rec := kit.Open("C37")
 	defer rec.Done()
-	n := rec.N(20000, 1000000)
+	// the builders hold a 16 MB pointer array each; fewer GC cycles = less rescanning
+	defer debug.SetGCPercent(debug.SetGCPercent(400))
+	n := rec.N(20000, 400000)
+	const workers = 4
+	var wg sync.WaitGroup
+	for wi := 0; wi < workers; wi++ {
+		wg.Add(1)
+		go func(wi int) {
+			defer wg.Done()
+			// the case list of worker wi is a pure function of (seed, tier, wi)
+			if msg, stack, p := kit.Guard(func() { c37Worker(rec, wi, n/workers) }); p {
+				rec.Violation("harness/panic/"+kit.PanicSite(stack), msg+"\n"+stack, nil)
+			}
+		}(wi)
+	}
+	wg.Wait()
+}
+
+func c37Worker(rec *kit.Rec, wi, n int) {
 	const batch = 16
-	r := rec.Rand(1)
-	g := kit.NewGen(rec.Rand(2))
+	r := rec.Rand(uint64(100 + 2*wi))
+	g := kit.NewGen(rec.Rand(uint64(101 + 2*wi)))
 	conv := &tagsToSections{} // reused across documents, like parseSymbols does
-	dir := filepath.Join(rec.Work, "c37")
-	if err := os.MkdirAll(dir, 0o755); err != nil {
+	w := &c37W{dir: filepath.Join(rec.Work, fmt.Sprintf("c37-%d", wi)), rec: rec}
+	if err := os.MkdirAll(w.dir, 0o755); err != nil {
 		rec.Violation("harness/mkdir", err.Error(), nil)
 		return
 	}
-	defer os.RemoveAll(dir)
+	defer os.RemoveAll(w.dir)
 
-	unitSig := func(d *c37Doc) string {
+	convSig := func(d *c37Doc) string {
 		c := &c37Doc{Content: d.Content, Ents: d.Ents}
-		return c37Unit(&tagsToSections{}, c).sig
+		return c37Convert(&tagsToSections{}, c).sig
 	}
 	var pending []*c37Doc
 	flush := func() {
@@ -758,41 +788,68 @@ func TestVerif_C37(t *testing.T) {
 		docs := pending
 		pending = nil
 		rec.Count("e2e_shards", 1)
-		sig, what, idx := c37E2E(dir, docs, rec)
+		sig, what, idx := w.e2e(docs)
 		if sig == "" {
 			return
 		}
-		wit := map[string]any{"what": what, "docs_in_shard": len(docs)}
-		if idx >= 0 {
-			// try the document alone, then with fewer entries
-			one := func(d *c37Doc) string {
+		// shrink: fewer documents in the shard, then fewer entries per document
+		shardSig := func(ds []*c37Doc) (string, string) {
+			var cs []*c37Doc
+			for _, d := range ds {
 				c := &c37Doc{Content: d.Content, Ents: d.Ents}
 				if o := c37Convert(&tagsToSections{}, c); o.sig != "" {
-					return o.sig
+					return o.sig, o.what
 				}
-				s, _, _ := c37E2E(dir, []*c37Doc{c}, rec)
-				return s
+				cs = append(cs, c)
 			}
-			if one(docs[idx]) == sig {
-				small := c37Shrink(docs[idx], sig, one)
-				c := &c37Doc{Content: small.Content, Ents: small.Ents}
-				c37Convert(&tagsToSections{}, c)
-				_, w2, _ := c37E2E(dir, []*c37Doc{c}, rec)
-				wit["alone"] = true
-				wit["content"] = small.Content
-				wit["entries"] = small.Ents
-				wit["sections"] = c.secs
-				what = w2
-			} else {
-				wit["alone"] = false
-				wit["doc_index"] = idx
-				var all []map[string]any
-				for _, d := range docs {
-					all = append(all, map[string]any{"content": d.Content, "entries": d.Ents})
+			s, wh, _ := w.e2e(cs)
+			return s, wh
+		}
+		cur := docs
+		for changed := true; changed && len(cur) > 1; {
+			changed = false
+			for i := 0; i < len(cur) && len(cur) > 1; i++ {
+				c := append(append([]*c37Doc(nil), cur[:i]...), cur[i+1:]...)
+				if s, _ := shardSig(c); s == sig {
+					cur = c
+					changed = true
+					i--
 				}
-				wit["docs"] = all
 			}
 		}
+		for i := range cur {
+			i := i
+			cur[i] = c37Shrink(cur[i], sig, func(c *c37Doc) string {
+				ds := append([]*c37Doc(nil), cur...)
+				ds[i] = c
+				s, _ := shardSig(ds)
+				return s
+			})
+		}
+		if s, wh := shardSig(cur); s == sig {
+			what = wh
+		}
+		var all []map[string]any
+		plain := true
+		for _, d := range cur {
+			c := &c37Doc{Content: d.Content, Ents: d.Ents}
+			c37Convert(&tagsToSections{}, c)
+			for _, sc := range c.secs {
+				if sc.Start == sc.End {
+					plain = false
+				}
+			}
+			all = append(all, map[string]any{"content_go_quoted": strconv.QuoteToASCII(d.Content), "entries": d.Ents, "sections": c.secs})
+		}
+		if strings.HasPrefix(sig, "add/") {
+			// input class for the signature: which kind of section trips the builder
+			if plain {
+				sig += "/plain"
+			} else {
+				sig += "/with-empty-name"
+			}
+		}
+		wit := map[string]any{"docs_in_original_shard": len(docs), "complaint_about_doc": idx, "shard_docs": all}
 		rec.Violation(sig, what, wit)
 	}
 
@@ -800,7 +857,7 @@ func TestVerif_C37(t *testing.T) {
 		d := &c37Doc{Content: c37GenContent(r, g)}
 		d.Ents = c37GenEntries(r, d.Content)
 		feat := c37Features(d)
-		o := c37Unit(conv, d)
+		o := c37Convert(conv, d)
 		dropped := len(d.Ents) - o.kept
 		nontrivial := o.sig == "" && o.kept > 0 && dropped > 0
 		key := fmt.Sprintf("f=%s|lines=%s|ents=%s|kept=%s|drop=b%v,a%v,o%v", c37FeatString(feat), c37Bucket(len(c37Lines(d.Content))), c37Bucket(len(d.Ents)), c37Bucket(o.kept), o.dropBad > 0, o.dropAbs > 0, o.dropOvl > 0)
@@ -821,28 +878,27 @@ func TestVerif_C37(t *testing.T) {
 			}
 		}
 		if o.sig != "" {
-			small := c37Shrink(d, o.sig, unitSig)
+			small := c37Shrink(d, o.sig, convSig)
 			c := &c37Doc{Content: small.Content, Ents: small.Ents}
-			o2 := c37Unit(&tagsToSections{}, c)
+			o2 := c37Convert(&tagsToSections{}, c)
 			what := o.what
 			if o2.sig == o.sig {
 				what = o2.what
 			}
-			sig := o.sig
-			if strings.HasPrefix(sig, "add/") {
-				// input class for the signature: which kind of section trips the builder
-				cls := "plain"
-				for _, s := range c.secs {
-					if s.Start == s.End {
-						cls = "with-empty-name"
-					}
-				}
-				sig += "/" + cls
-			}
-			rec.Violation(sig, what, map[string]any{"content": small.Content, "entries": small.Ents, "sections": c.secs, "original_entries": len(d.Ents)})
+			rec.Violation(o.sig, what, map[string]any{"content_go_quoted": strconv.QuoteToASCII(small.Content), "entries": small.Ents, "sections": c.secs, "original_entries": len(d.Ents)})
 			continue
 		}
-		rec.Count("add_accepted", 1)
+		if !utf8.ValidString(d.Content) && os.Getenv("VERIF_C37_MIX_INVALID_UTF8") == "" {
+			// Documents with invalid UTF-8 get a shard of their own: in a shared shard a
+			// document ending in a truncated multi-byte sequence shifts the rune->byte
+			// mapping of its neighbours (contentProvider.findOffset decodes across the
+			// document boundary) - a search defect unrelated to symbol conversion.
+			rest := pending
+			pending = []*c37Doc{d}
+			flush()
+			pending = rest
+			continue
+		}
 		pending = append(pending, d)
 		if len(pending) == batch {
 			flush()
